@@ -1,7 +1,9 @@
-// Harness for C14: operation histories through ocifilter.ReadOnly(mem), ocifilter.Immutable(mem)
-// and ocimem.NewWithConfig(ImmutableTags), with snapshots of the underlying registry before and
+// Harness for C14: operation histories through ocifilter.ReadOnly(x), ocifilter.Immutable(x) - x
+// being the in-memory registry handed over under several dynamic types (wrap.go) - and
+// ocimem.NewWithConfig(ImmutableTags), with snapshots of the underlying registry before and
 // after, a walk from every tag through the manifests it references, and concurrent batches in
-// immutable-tags mode.  Cases are terms of coq/Obs/C14.v's [case].
+// immutable-tags mode (gen.go: concInput, duelInput; operations of one goroutine aimed at the span
+// of another's through calibrated delays).  Cases are terms of coq/Obs/C14.v's [case].
 package main
 
 import (
@@ -9,14 +11,15 @@ import (
 	"fmt"
 	"os"
 	"path/filepath"
-	"regexp"
 	"sort"
 	"strings"
 	"sync"
+	"time"
 
 	"cuelabs.dev/go/oci/ociregistry"
 	"cuelabs.dev/go/oci/ociregistry/ocifilter"
 	"cuelabs.dev/go/oci/ociregistry/ocimem"
+	"github.com/opencontainers/go-digest"
 	ocispec "github.com/opencontainers/image-spec/specs-go/v1"
 	"verif/harness/hx"
 	"verif/harness/memsim"
@@ -24,10 +27,15 @@ import (
 
 type input struct {
 	Mech     string        `json:"mech"` // readonly | immutable | immtags
+	Wrap     string        `json:"wrap,omitempty"` // how the registry is handed to the wrapper (wrap.go)
 	UnderImm bool          `json:"under_imm,omitempty"`
 	Setup    []memsim.Op   `json:"setup,omitempty"`
 	Ops      []memsim.Op   `json:"ops,omitempty"`
 	Threads  [][]memsim.Op `json:"threads,omitempty"`
+	// Gaps[i][j]: how long goroutine i waits before its j-th operation, as a fraction of the
+	// longest operation of the batch (measured on a twin registry just before the batch runs).
+	// Absent = every goroutine runs flat out.
+	Gaps [][]float64 `json:"gaps,omitempty"`
 }
 
 func (in input) immCfg() bool { return in.Mech == "immtags" || in.UnderImm }
@@ -36,9 +44,9 @@ func build(in input) (under *ocimem.Registry, mech ociregistry.Interface) {
 	under = ocimem.NewWithConfig(&ocimem.Config{ImmutableTags: in.immCfg()})
 	switch in.Mech {
 	case "readonly":
-		mech = ocifilter.ReadOnly(under)
+		mech = ocifilter.ReadOnly(wrapAs(in.Wrap, under))
 	case "immutable":
-		mech = ocifilter.Immutable(under)
+		mech = ocifilter.Immutable(wrapAs(in.Wrap, under))
 	case "immtags":
 		mech = under
 	default:
@@ -95,6 +103,20 @@ func (u *universe) op(o memsim.Op) {
 	}
 	if o.Kind == "PushManifest" || o.Kind == "PushBlob" {
 		u.digs[[2]string{o.Repo, memsim.Sha(o.Content)}] = true
+	}
+	if o.Kind == "PushManifest" {
+		// what the pushed bytes name directly (whatever media type they are pushed with): a
+		// snapshot must be able to tell whether a tag's manifest has its references in place
+		for _, media := range []string{ocispec.MediaTypeImageManifest, ocispec.MediaTypeImageIndex} {
+			for i, ch := range childrenOf(media, o.Content) {
+				if i >= 12 {
+					break
+				}
+				if digest.Digest(ch[1]).Validate() == nil {
+					u.digs[[2]string{o.Repo, ch[1]}] = true
+				}
+			}
+		}
 	}
 }
 
@@ -212,35 +234,79 @@ func buildProbes(in input, ex *memsim.Exec) ([]probe, []memsim.Result) {
 	return ps, rs
 }
 
-var litRe = regexp.MustCompile(`\(p \d+ \[[0-9%uint63; ]*\]\)`)
+// nextLiteral finds the next byte-string literal "(p <len> [<words>])" (hx.B) at or after from
+// and returns its bounds; ok = false when there is none.  (A hand-written scanner: the regular
+// expression this replaces took three quarters of the harness's run time.)
+func nextLiteral(s string, from int) (start, end int, ok bool) {
+	for {
+		i := strings.Index(s[from:], "(p ")
+		if i < 0 {
+			return 0, 0, false
+		}
+		start = from + i
+		j := start + 3
+		k := j
+		for k < len(s) && s[k] >= '0' && s[k] <= '9' {
+			k++
+		}
+		if k == j || k+1 >= len(s) || s[k] != ' ' || s[k+1] != '[' {
+			from = start + 3
+			continue
+		}
+		k += 2
+		for k < len(s) && strings.IndexByte("0123456789%uint63; ", s[k]) >= 0 {
+			k++
+		}
+		if k+1 < len(s) && s[k] == ']' && s[k+1] == ')' {
+			return start, k + 2, true
+		}
+		from = start + 3
+	}
+}
 
 // internLiterals binds every byte-string literal that occurs more than once in a case term to a
 // local name (let b7 := ... in), so that Coq reads each content once.
 func internLiterals(coq string) string {
 	count := map[string]int{}
-	for _, m := range litRe.FindAllString(coq, -1) {
-		count[m]++
+	for from := 0; ; {
+		a, b, ok := nextLiteral(coq, from)
+		if !ok {
+			break
+		}
+		count[coq[a:b]]++
+		from = b
 	}
 	names := map[string]string{}
 	var order []string
-	body := litRe.ReplaceAllStringFunc(coq, func(m string) string {
-		if count[m] < 2 || len(m) < 40 {
-			return m
-		}
-		n, ok := names[m]
+	var body strings.Builder
+	from := 0
+	for {
+		a, b, ok := nextLiteral(coq, from)
 		if !ok {
-			n = fmt.Sprintf("b%d_", len(names))
-			names[m] = n
-			order = append(order, m)
+			break
 		}
-		return n
-	})
+		body.WriteString(coq[from:a])
+		m := coq[a:b]
+		if count[m] < 2 || len(m) < 40 {
+			body.WriteString(m)
+		} else {
+			n, seen := names[m]
+			if !seen {
+				n = fmt.Sprintf("b%d_", len(names))
+				names[m] = n
+				order = append(order, m)
+			}
+			body.WriteString(n)
+		}
+		from = b
+	}
+	body.WriteString(coq[from:])
 	var sb strings.Builder
 	sb.WriteString("(")
 	for _, m := range order {
 		sb.WriteString("let " + names[m] + " := " + m + " in ")
 	}
-	sb.WriteString(body + ")")
+	sb.WriteString(body.String() + ")")
 	return sb.String()
 }
 
@@ -283,6 +349,60 @@ func steps(ops []memsim.Op, rs []memsim.Result) []step {
 		out[i] = step{ops[i], r}
 	}
 	return out
+}
+
+func spin(d time.Duration) {
+	t0 := time.Now()
+	for time.Since(t0) < d {
+	}
+}
+
+func bucket(n int) string {
+	switch {
+	case n < 10:
+		return "<10"
+	case n < 30:
+		return "10-29"
+	case n < 100:
+		return "30-99"
+	case n < 300:
+		return "100-299"
+	case n < 1000:
+		return "300-999"
+	}
+	return ">=1000"
+}
+
+// calibrate brings a twin registry to the state in which the batch starts and runs the
+// goroutines' operations on it one after the other; it returns the duration of the longest one.
+func calibrate(in input) time.Duration {
+	under, mech := build(in)
+	exU := memsim.NewExec(under, true)
+	exM := exU
+	if in.Mech != "immtags" {
+		exM = memsim.NewExec(mech, true)
+	}
+	for _, o := range in.Setup {
+		exU.Run(o)
+	}
+	for _, o := range in.Ops {
+		exM.Run(o)
+	}
+	var longest time.Duration
+	for _, th := range in.Threads {
+		ex := memsim.NewExec(mech, true)
+		for _, o := range th {
+			t0 := time.Now()
+			ex.Run(o)
+			if d := time.Since(t0); d > longest {
+				longest = d
+			}
+		}
+	}
+	if longest > 5*time.Millisecond {
+		longest = 5 * time.Millisecond
+	}
+	return longest
 }
 
 // runCase executes one input on fresh registries and emits the case.
@@ -346,6 +466,17 @@ func runCase(out *hx.Out, in input, origin string) {
 	// concurrent batch
 	thrRes := make([][]memsim.Result, len(in.Threads))
 	if len(in.Threads) > 0 {
+		// With gaps: the unit is the longest single operation of the batch, measured on a twin
+		// registry brought to the same state.  Starting an operation at a random point inside
+		// the span of another goroutine's operation is what makes a window inside that
+		// operation (a lock released and re-taken, a check separated from its action) visible;
+		// goroutines released together almost always run their first operations one after the
+		// other.
+		var unit time.Duration
+		if len(in.Gaps) > 0 {
+			unit = calibrate(in)
+			out.Count(fmt.Sprintf("conc-unit-us:%s", bucket(int(unit/time.Microsecond))))
+		}
 		var wg sync.WaitGroup
 		start := make(chan struct{})
 		for i, th := range in.Threads {
@@ -353,9 +484,12 @@ func runCase(out *hx.Out, in input, origin string) {
 			go func(i int, th []memsim.Op) {
 				defer wg.Done()
 				ex := memsim.NewExec(mech, true)
-				<-start
 				rs := make([]memsim.Result, len(th))
+				<-start
 				for j, o := range th {
+					if i < len(in.Gaps) && j < len(in.Gaps[i]) && in.Gaps[i][j] > 0 {
+						spin(time.Duration(in.Gaps[i][j] * float64(unit)))
+					}
 					rs[j] = ex.Run(o)
 				}
 				thrRes[i] = rs
@@ -390,9 +524,9 @@ func runCase(out *hx.Out, in input, origin string) {
 		thr[i] = coqEvents(in.Threads[i], thrRes[i])
 	}
 	mechCoq := map[string]string{"readonly": "MReadOnly", "immutable": "MImmutable", "immtags": "MImmTags"}[in.Mech]
-	coq := fmt.Sprintf("{| c_mech := %s; c_under_imm := %s; c_orc := %s; c_setup := %s; c_setup_obs := %s; "+
+	coq := fmt.Sprintf("{| c_mech := %s; c_wrap := %s; c_under_imm := %s; c_orc := %s; c_setup := %s; c_setup_obs := %s; "+
 		"c_probes := %s; c_before := %s; c_ops := %s; c_obs := %s; c_direct := %s; c_threads := %s; c_after := %s |}",
-		mechCoq, hx.Bool(in.UnderImm), or.Coq(), coqOps(in.Setup), coqResults(setupRes),
+		mechCoq, wrapCoq[in.Wrap], hx.Bool(in.UnderImm), or.Coq(), coqOps(in.Setup), coqResults(setupRes),
 		hx.List(pcoq), coqResults(before), coqOps(in.Ops), coqResults(opsRes), hx.List(direct), hx.List(thr), coqResults(after))
 	thrSteps := make([][]step, len(in.Threads))
 	for i := range in.Threads {
@@ -405,12 +539,18 @@ func runCase(out *hx.Out, in input, origin string) {
 		}
 	}
 	class := in.Mech + "/" + origin
+	if in.Wrap != "" {
+		class = in.Mech + "-over-" + in.Wrap + "/" + origin
+	}
 	if out.Add(hx.Case{Coq: internLiterals(coq),
 		Desc: map[string]any{"input": in, "origin": origin, "setup_trace": steps(in.Setup, setupRes),
 			"trace": steps(in.Ops, opsRes), "threads_trace": thrSteps,
 			"probes_changed": changed, "probes": len(probes)},
 		Tags: map[string]any{"class": class, "mech": in.Mech}}) {
 		out.Count("mech:" + in.Mech)
+		if in.Mech != "immtags" {
+			out.Count("wrap:" + in.Mech + "/" + wrapCoq[in.Wrap])
+		}
 		out.Count("origin:" + origin)
 		out.Count(fmt.Sprintf("len:%d", (len(in.Setup)+len(in.Ops)+9)/10*10))
 		if len(in.Threads) > 0 {
@@ -467,8 +607,13 @@ func main() {
 		names = append(names, n)
 	}
 	sort.Strings(names)
+	type job struct {
+		in     input
+		origin string
+	}
+	var seq, conc []job
 	for _, n := range names {
-		runCase(out, sc[n], "scripted")
+		seq = append(seq, job{sc[n], "scripted"})
 	}
 	rnd := cfg.Rand()
 	n := 420
@@ -476,14 +621,35 @@ func main() {
 		n = 5000
 	}
 	for i := 0; i < n; i++ {
-		runCase(out, randomInput(rnd, i), "random")
+		seq = append(seq, job{randomInput(rnd, i), "random"})
 	}
-	nc := 120
+	nc, nd := 100, 48
 	if cfg.Thorough() {
-		nc = 1500
+		nc, nd = 1200, 700
 	}
 	for i := 0; i < nc; i++ {
-		runCase(out, concInput(rnd, i), "concurrent")
+		conc = append(conc, job{concInput(rnd, i), "concurrent"})
+	}
+	for i := 0; i < nd; i++ {
+		conc = append(conc, job{duelInput(rnd, i), "duel"})
+	}
+	// the concurrent cases cost the most to evaluate (a search for a linearization): spread them
+	// evenly over the case files
+	rnd.Shuffle(len(conc), func(i, j int) { conc[i], conc[j] = conc[j], conc[i] })
+	every := len(seq)/len(conc) + 1
+	for len(seq) > 0 || len(conc) > 0 {
+		k := every
+		if k > len(seq) {
+			k = len(seq)
+		}
+		for _, j := range seq[:k] {
+			runCase(out, j.in, j.origin)
+		}
+		seq = seq[k:]
+		if len(conc) > 0 {
+			runCase(out, conc[0].in, conc[0].origin)
+			conc = conc[1:]
+		}
 	}
 	if err := out.Flush(); err != nil {
 		panic(err)
